@@ -6,6 +6,8 @@
 
 from numbers import Integral
 
+import numpy as np
+
 from glue.core.hub import HubListener
 from glue.core.data import BaseCartesianData
 from glue.core.message import NumericalDataChangedMessage
@@ -142,6 +144,9 @@ class IndexedData(BaseCartesianData, HubListener):
             view = [slice(None)] * self.ndim
         elif isinstance(view, (slice, Integral)):
             view = [view]
+        elif isinstance(view, np.ndarray) and view.dtype == bool:
+            # a boolean mask selects the same elements as its index arrays
+            view = np.nonzero(view)
         if isinstance(view, (tuple, list)) and len(view) < self.ndim and not any(v is Ellipsis for v in view):
             # views can have fewer elements than there are dimensions
             view = list(view) + [slice(None)] * (self.ndim - len(view))
